@@ -41,6 +41,10 @@ func (idx *Index) Execute(q *Query) (*Result, error) {
 		return nil, err
 	}
 
+	if err := validateExpr(q.Expr); err != nil {
+		return nil, err
+	}
+
 	result, err := q.Expr.eval(idx)
 	if err != nil {
 		return nil, err
@@ -372,4 +376,43 @@ func (e *ExprOr) cacheKey() uint64 {
 	}
 
 	return mixCacheKey(tagOr, keys...)
+}
+
+// validateExpr rejects expression trees with missing operands, e.g. a query
+// without expression or a NOT without operand as they can arrive over gRPC.
+func validateExpr(e Expression) error {
+	switch v := e.(type) {
+	case *ExprEqual:
+		if v == nil {
+			return fmt.Errorf("incomplete expression")
+		}
+		return nil
+	case *ExprNot:
+		if v == nil {
+			return fmt.Errorf("incomplete expression")
+		}
+		return validateExpr(v.Expr)
+	case *ExprAnd:
+		if v == nil {
+			return fmt.Errorf("incomplete expression")
+		}
+		for _, ee := range v.Exprs {
+			if err := validateExpr(ee); err != nil {
+				return err
+			}
+		}
+		return nil
+	case *ExprOr:
+		if v == nil {
+			return fmt.Errorf("incomplete expression")
+		}
+		for _, ee := range v.Exprs {
+			if err := validateExpr(ee); err != nil {
+				return err
+			}
+		}
+		return nil
+	default:
+		return fmt.Errorf("incomplete expression")
+	}
 }
